@@ -133,9 +133,9 @@ Props/C09.vos Props/C09.vok Props/C09.required_vos: Props/C09.v Base/Base.vos Mo
 Props/C10.vo Props/C10.glob Props/C10.v.beautified Props/C10.required_vo: Props/C10.v Base/Base.vo Model/Reader.vo Model/Printer.vo Model/Store.vo Model/Eval.vo Model/Init.vo Proofs/EvalRel.vo
 Props/C10.vio: Props/C10.v Base/Base.vio Model/Reader.vio Model/Printer.vio Model/Store.vio Model/Eval.vio Model/Init.vio Proofs/EvalRel.vio
 Props/C10.vos Props/C10.vok Props/C10.required_vos: Props/C10.v Base/Base.vos Model/Reader.vos Model/Printer.vos Model/Store.vos Model/Eval.vos Model/Init.vos Proofs/EvalRel.vos
-Props/C11.vo Props/C11.glob Props/C11.v.beautified Props/C11.required_vo: Props/C11.v Base/Base.vo Model/Reader.vo Model/Printer.vo Model/Store.vo Model/Eval.vo Model/Init.vo Model/Api.vo Proofs/Heap.vo Proofs/EvalRel.vo Proofs/Build.vo
-Props/C11.vio: Props/C11.v Base/Base.vio Model/Reader.vio Model/Printer.vio Model/Store.vio Model/Eval.vio Model/Init.vio Model/Api.vio Proofs/Heap.vio Proofs/EvalRel.vio Proofs/Build.vio
-Props/C11.vos Props/C11.vok Props/C11.required_vos: Props/C11.v Base/Base.vos Model/Reader.vos Model/Printer.vos Model/Store.vos Model/Eval.vos Model/Init.vos Model/Api.vos Proofs/Heap.vos Proofs/EvalRel.vos Proofs/Build.vos
+Props/C11.vo Props/C11.glob Props/C11.v.beautified Props/C11.required_vo: Props/C11.v Base/Base.vo Model/Reader.vo Model/Printer.vo Model/Store.vo Model/Eval.vo Model/Init.vo Model/Api.vo Proofs/Heap.vo Proofs/EvalRel.vo Proofs/Build.vo Proofs/Seq.vo
+Props/C11.vio: Props/C11.v Base/Base.vio Model/Reader.vio Model/Printer.vio Model/Store.vio Model/Eval.vio Model/Init.vio Model/Api.vio Proofs/Heap.vio Proofs/EvalRel.vio Proofs/Build.vio Proofs/Seq.vio
+Props/C11.vos Props/C11.vok Props/C11.required_vos: Props/C11.v Base/Base.vos Model/Reader.vos Model/Printer.vos Model/Store.vos Model/Eval.vos Model/Init.vos Model/Api.vos Proofs/Heap.vos Proofs/EvalRel.vos Proofs/Build.vos Proofs/Seq.vos
 Props/C12.vo Props/C12.glob Props/C12.v.beautified Props/C12.required_vo: Props/C12.v Base/Base.vo Model/Reader.vo Model/Printer.vo Model/Store.vo Model/Eval.vo Model/Init.vo Proofs/Lists.vo
 Props/C12.vio: Props/C12.v Base/Base.vio Model/Reader.vio Model/Printer.vio Model/Store.vio Model/Eval.vio Model/Init.vio Proofs/Lists.vio
 Props/C12.vos Props/C12.vok Props/C12.required_vos: Props/C12.v Base/Base.vos Model/Reader.vos Model/Printer.vos Model/Store.vos Model/Eval.vos Model/Init.vos Proofs/Lists.vos
